@@ -14,7 +14,7 @@ import types
 ID = "C10"
 LEVEL = "exploration"
 RULE = (
-    "programs of 2-3 threads x 1-4 atomic actions (einx call with/without backend argument, enter/exit of a 'with backend' block, einx.backend.get, eager registration of a "
+    "programs of 2-3 threads x 1-4 atomic actions (einx call with/without backend argument - 9 built-in calls incl. two signatures of one op, an adapted function with two signatures, a call with a tensor factory, solve_axes, matches, creation and use of a new adapter; enter/exit of a 'with backend' block, einx.backend.get, eager registration of a "
     "synthetic backend, first use of a lazily registered backend after its module appears) on the real global registry; schedules: no preemption, PCT-style 1-3 pre-drawn "
     "preemption points, random switching, (thorough) every single preemption point and every pair inside frontend/backend.py; warm and cold (compile caches cleared) variants; "
     "distinct = distinct switch sequences (thread, yield index); non-trivial = schedules with at least one preemption"
@@ -39,6 +39,9 @@ def shards(tier, seed, scale):
 
 # ------------------------------------------------------------------ programs
 
+BACKEND_OPS = ["sum", "min", "add", "multiply", "dot", "id", "sum_t", "get_at", "softmax"]
+OPS = BACKEND_OPS + ["adapted", "adapted_t", "factory", "solve_axes", "matches", "adapt_new"]
+
 
 def fixed_programs():
     E = "numpy.einsum"
@@ -51,6 +54,10 @@ def fixed_programs():
         {"name": "cold-with-vs-compile", "cold": True, "threads": [[("enter", E), ("call", "sum", None), ("exit", E)], [("call", "sum", None), ("get", None)]]},
         {"name": "with-vs-register", "cold": False, "threads": [[("enter", E), ("get", None), ("exit", E)], [("register", "syn3")], [("call", "multiply", None)]]},
         {"name": "byname-vs-with", "cold": False, "threads": [[("enter", "numpy.numpylike"), ("call", "dot", None), ("exit", "numpy.numpylike")], [("call", "sum", E), ("get", "numpy")]]},
+        {"name": "cold-two-signatures", "cold": True, "threads": [[("call", "sum", None), ("call", "sum_t", None)], [("call", "sum_t", None), ("call", "sum", None)]]},
+        {"name": "cold-adapter-two-signatures", "cold": True, "threads": [[("call", "adapted", None)], [("call", "adapted_t", None)], [("call", "factory", None)]]},
+        {"name": "cold-factory-vs-solve", "cold": True, "threads": [[("call", "factory", None), ("call", "solve_axes", None)], [("call", "factory", None), ("call", "matches", None)]]},
+        {"name": "adapt-new-vs-adapted", "cold": True, "threads": [[("call", "adapt_new", None), ("call", "adapted", None)], [("call", "adapted_t", None), ("call", "adapt_new", None)]]},
     ]
 
 
@@ -67,7 +74,8 @@ def random_program(rng):
         for _ in range(n):
             k = rng.random()
             if k < 0.45:
-                inner.append(("call", rng.choice(["sum", "min", "add", "multiply", "dot", "id"]), rng.choice([None, None, "numpy", "numpy.einsum", "numpy.numpylike"])))
+                op = rng.choice(OPS)
+                inner.append(("call", op, rng.choice([None, None, "numpy", "numpy.einsum", "numpy.numpylike"]) if op in BACKEND_OPS else None))
             elif k < 0.7:
                 inner.append(("get", rng.choice([None, None, "numpy", "numpy.einsum"])))
             elif k < 0.85:
@@ -99,9 +107,14 @@ class World:
         self.reg = B.registry
         self.x = np.arange(6.0).reshape(2, 3)
         self.y = np.arange(3.0)
+        self.xt = np.arange(6.0).reshape(3, 2) * 2 + 1
+        self.idx = np.array([1, 0, 1])
+        self.adapter = einx.numpy.adapt_numpylike_reduce(lambda t, axis: np.sum(t * t, axis=axis))
         # warm everything that a program may touch so that 'warm' really is warm
         for b in (None, "numpy", "numpy.einsum", "numpy.numpylike"):
-            for op in ("sum", "min", "add", "multiply", "dot", "id"):
+            for op in OPS:
+                if b is not None and op not in BACKEND_OPS:
+                    continue
                 try:
                     self.call(op, b)
                 except Exception:
@@ -124,11 +137,30 @@ class World:
             return einx.dot("a [b], [b] -> a", x, y, **kw)
         if op == "id":
             return einx.id("a b -> (b a)", x, **kw)
+        if op == "sum_t":  # the same operation and description as "sum" with another shape: a second cache entry
+            return einx.sum("a [b]", self.xt, **kw)
+        if op == "get_at":
+            return einx.get_at("a [b], p -> a p", x, self.idx, **kw)
+        if op == "softmax":
+            return einx.softmax("a [b]", x, **kw)
+        np = self.np
+        if op == "adapted":
+            return self.adapter("a [b]", x)
+        if op == "adapted_t":
+            return self.adapter("a [b]", self.xt)
+        if op == "factory":
+            return einx.add("a b, b", x, lambda shape: np.full(shape, 3.0))
+        if op == "solve_axes":
+            return sorted((k, int(v)) for k, v in einx.solve_axes("(a c) b", x, c=2).items())
+        if op == "matches":
+            return bool(einx.matches("a (b c)", x, c=3)), bool(einx.matches("a (b c)", x, c=2))
+        if op == "adapt_new":
+            return einx.numpy.adapt_numpylike_elementwise(lambda u, v: u - v)("a b, b", x, y)
         raise KeyError(op)
 
     def caches(self):
         out = []
-        for op in (self.einx.sum, self.einx.min, self.einx.add, self.einx.multiply, self.einx.dot, self.einx.id):
+        for op in (self.einx.sum, self.einx.min, self.einx.add, self.einx.multiply, self.einx.dot, self.einx.id, self.einx.get_at, self.einx.softmax, self.adapter):
             d = dict(zip(op.__code__.co_freevars, [c.cell_contents for c in op.__closure__]))
             out.append(d["construct_graph_with_cache"].__wrapped__)
         return out
